@@ -23,7 +23,10 @@ func genLen(t *rapid.T, label string, min int) int {
 			return rapid.IntRange(max(min, 8000), 8200).Draw(t, label)
 		}
 		return rapid.IntRange(max(min, 250), 300).Draw(t, label)
-	case 2, 3, 4, 5:
+	case 2, 3:
+		// counts whose one-byte-per-item length list sits on the plain/zstd (128) and one-byte size (256) edges
+		return rapid.SampledFrom([]int{125, 126, 127, 128, 129, 253, 254, 255, 256, 257, 258}).Draw(t, label)
+	case 4, 5:
 		return rapid.IntRange(max(min, 17), 300).Draw(t, label)
 	default:
 		return rapid.IntRange(min, 16).Draw(t, label)
@@ -387,7 +390,7 @@ func genItems(t *rapid.T, maxDistinct int) []c11Item {
 	if n > 1200 {
 		n = 1200
 	}
-	kind := rapid.SampledFrom([]string{"low-card", "high-card", "mixed", "long", "all-nil", "all-empty"}).Draw(t, "kind")
+	kind := rapid.SampledFrom([]string{"low-card", "high-card", "mixed", "long", "all-nil", "all-empty", "exact-total"}).Draw(t, "kind")
 	if kind == "long" && n > 24 {
 		n = 24
 	}
@@ -395,6 +398,24 @@ func genItems(t *rapid.T, maxDistinct int) []c11Item {
 	pool := make([][]byte, 0, 8)
 	for i := 0; i < rapid.IntRange(1, 6).Draw(t, "pooln"); i++ {
 		pool = append(pool, verifkit.Bytes(t, "pool", 10))
+	}
+	if kind == "exact-total" {
+		// payload whose concatenation is exactly T bytes, T on the 128 / 256 edges
+		total := rapid.SampledFrom([]int{126, 127, 128, 129, 254, 255, 256, 257, 512}).Draw(t, "total")
+		k := rapid.IntRange(1, 8).Draw(t, "k")
+		items = items[:0]
+		for i := 0; i < k; i++ {
+			l := total / k
+			if i == k-1 {
+				l = total - (total/k)*(k-1)
+			}
+			b := make([]byte, l)
+			for j := range b {
+				b[j] = byte(rapid.IntRange(0, 255).Draw(t, "x"))
+			}
+			items = append(items, c11Item{B: b})
+		}
+		return items
 	}
 	for i := range items {
 		switch kind {
